@@ -244,7 +244,12 @@ def case_chain(rng: Any, ctx: Ctx, index: int) -> None:
     """A chain with a block pair that cannot be paired block by block followed by a pair of the same classes that can."""
     from .. import patterns
     from .c07 import residue
-    tag, ops = generate(lambda: patterns.p_blocks_after_mismatch(rng))
+    if rng.integers(3) == 0:
+        # two block-diagonal operators whose blocks cancel pairwise: the whole chain vanishes, what is left is the identity
+        # ON THE STRUCTURE OF THE CHAIN
+        tag, ops = generate(lambda: patterns.p_blocks_cancel(rng))
+    else:
+        tag, ops = generate(lambda: patterns.p_blocks_after_mismatch(rng))
     if any(dense.size_of(o.in_structure()) > 40 or dense.size_of(o.out_structure()) > 40 for o in ops):
         return
     LOG.case_key(f'product:{tag}:{type(ops[-1].blocks).__name__}:arity{len(ops[-1].block_leaves)}', True)
